@@ -37,6 +37,11 @@ Proof.
   induction comps as [|i comps IH]; cbn [flat_map]; [reflexivity|]. now rewrite pi_app, pi_att, IH.
 Qed.
 
+Lemma pi_MSet e ty i d ms : pi (MSet e ty i d :: ms) = MSet e ty i d :: pi ms.
+Proof. reflexivity. Qed.
+Lemma pi_MRet r x : pi [MRet r x] = [MRet r x].
+Proof. reflexivity. Qed.
+
 (* ---- silent runs ------------------------------------------------------------------ *)
 Lemma R_set s ss e ty i (d : bool) : R s ss ->
   R (set_ents (if d then set_dead s (zadd e (dead s)) else s)
@@ -139,27 +144,32 @@ Proof.
     { intros e. eexists. split; [now rewrite pi_app, pi_atts|]. now apply R_fold_tset. }
     destruct eid as [e|].
     + intros [= <- <-]. apply X.
-    + destruct oret as [e|]; [|discriminate]. unfold towns. rewrite <- HE.
+    + destruct oret as [e|]; [|discriminate].
+      replace (towns (att ss) e) with (amem e (ents s)) by (unfold towns; now rewrite HE).
       destruct (amem e (ents s)); [discriminate|]. intros [= <- <-]. apply X.
   - (* Add *)
-    rewrite <- HE, <- HD. destruct (tget (ents s) e (ty_of p i)) as [old|].
+    replace (tget (att ss) e (ty_of p i)) with (tget (ents s) e (ty_of p i)) by now rewrite HE.
+    replace (zmem e (pend ss)) with (zmem e (dead s)) by now rewrite HD.
+    destruct (tget (ents s) e (ty_of p i)) as [old|].
     + intros [= <- <-]. eexists. split.
-      * rewrite !pi_app, pi_rm, pi_att. cbn [pi flat_map pim app]. rewrite HE. reflexivity.
-      * rewrite <- HE, <- HD. apply (R_tdel s ss e (ty_of p i) HR).
+      * cbn [app]. rewrite pi_app, pi_rm, pi_MSet, pi_app, pi_att, pi_MRet. reflexivity.
+      * apply (R_tdel s ss e (ty_of p i) HR).
     + intros [= <- <-]. exists ss. split; [|exact HR].
-      rewrite !pi_app, pi_att. reflexivity.
+      cbn [app]. rewrite pi_MSet, pi_app, pi_att, pi_MRet. reflexivity.
   - (* Remove *)
-    rewrite <- HE. destruct (tget (ents s) e ty) as [old|].
+    replace (tget (att ss) e ty) with (tget (ents s) e ty) by now rewrite HE.
+    destruct (tget (ents s) e ty) as [old|].
     + intros [= <- <-]. eexists. split.
-      * rewrite pi_app, pi_rm. cbn [pi flat_map pim app]. rewrite HE. reflexivity.
-      * rewrite <- HE. apply (R_tdel s ss e ty HR).
+      * rewrite pi_app, pi_rm, pi_MRet. reflexivity.
+      * apply (R_tdel s ss e ty HR).
     + intros [= <- <-]. exists ss. auto.
   - (* Delete *)
     destruct imm.
-    + rewrite <- HE. destruct (alookup e (ents s)) as [r|].
+    + replace (alookup e (att ss)) with (alookup e (ents s)) by now rewrite HE.
+      destruct (alookup e (ents s)) as [r|].
       * intros [= <- <-]. eexists. split.
-        -- rewrite pi_app, pi_row. cbn [pi flat_map pim app]. rewrite HE. reflexivity.
-        -- rewrite <- HE. now apply R_adel.
+        -- rewrite pi_app, pi_row, pi_MRet. reflexivity.
+        -- now apply R_adel.
       * intros [= <- <-]. exists ss. auto.
     + intros [= <- <-]. eexists. split; [reflexivity|]. now apply R_mark.
   - intros [= <- <-]. exists ss. auto.
